@@ -243,4 +243,7 @@ def run(ctx):
     rule_loops(ctx)
     from . import c02
     c02.rule_pair_domains(ctx)     # R02.8: the term solved by the Kepler step (gravity_ignore_terms) is left out of the kick exactly once
+    from . import c09
+    c09.rule_cache_invalidation(ctx)   # R09.10: the Jacobi/heliocentric copy the Kepler step advances is refreshed whenever the particles changed
+    c09.rule_exact_finish(ctx)         # R09.11
     ctx.not_decided.append('exactness of the propagation to rounding error; correctness of the Newton/quartic/bisection selection; NaN freedom for all finite input; agreement of the AVX512 solver with the scalar one')
